@@ -66,6 +66,11 @@ def run(p, report, tier):
                 and "missing_label" in ast.unparse(v)
             if is_dtype_of_call or is_type_arith:
                 ok = is_dtype_of_call and c01.callname(v.value) in ("append", "concatenate", "hstack", "array", "asarray")
+                # ... built from ALL labels: a slice of them ([:1]) gives the width of the first label only
+                if ok and any(isinstance(x, ast.Subscript) and isinstance(x.slice, ast.Slice)
+                              and (x.slice.upper is not None or x.slice.lower is not None)
+                              for a_ in v.value.args for x in ast.walk(a_)):
+                    ok = False
                 n_dt += 1
                 report.add("R16.5", modname.split(".")[-1], f"common dtype `{norm_stmt(n, 80)}`", f"{m.relpath}:{n.lineno}", ok,
                            detail="np.append(labels, sentinel).dtype" if ok else
@@ -177,8 +182,10 @@ def run(p, report, tier):
         if f is None:
             raise AnalysisError(f"ExtLabelEncoder.{mname} vanished")
         ent = f"ExtLabelEncoder.{mname}"
+        # a method that only delegates to a shared private helper is looked at through the helper
+        fx = inline_temporaries(expand_delegation(p, f))
         masks = {}
-        for n in ast.walk(f.node):
+        for n in ast.walk(fx):
             if isinstance(n, ast.Assign) and isinstance(n.value, ast.Call) and c01.callname(n.value) == "is_labeled":
                 sent = None
                 for k in n.value.keywords:
@@ -189,9 +196,9 @@ def run(p, report, tier):
                 for t in n.targets:
                     if isinstance(t, ast.Name):
                         masks[t.id] = ast.unparse(sent) if sent is not None else None
-        rets = [n for n in ast.walk(f.node) if isinstance(n, ast.Return) and isinstance(n.value, ast.Name)]
+        rets = [n for n in ast.walk(fx) if isinstance(n, ast.Return) and isinstance(n.value, ast.Name)]
         out = rets[0].value.id if rets else None
-        stores = [n for n in ast.walk(f.node) if isinstance(n, ast.Assign)
+        stores = [n for n in ast.walk(fx) if isinstance(n, ast.Assign)
                   and any(isinstance(t, ast.Subscript) and base_name(t) == out for t in n.targets)]
         pos = [s for s in stores if isinstance(s.targets[0].slice, ast.Name) and s.targets[0].slice.id in masks]
         neg = [s for s in stores if _is_invert(s.targets[0].slice) is not None
